@@ -117,9 +117,14 @@ func c03Requests(entry string, otherUserEntry string) []c03Req {
 	// policy does not allow (the first name here is not allowed, a later one is)
 	el := tsgu.UTF16Z("elsewhere.example")
 	withLen := func(b []byte) []byte { return append([]byte{byte(len(b)), byte(len(b) >> 8)}, b...) }
-	add("alternate-allowed-after-unlisted", append(append([]byte{}, el...), withLen(z)...), port, 1, 1, len(el), false)
-	add("second-resource-allowed-after-unlisted", append(append([]byte{}, el...), withLen(z)...), port, 2, 0, len(el), false)
-	add("two-alternates-allowed-after-unlisted", append(append(append([]byte{}, el...), withLen(z)...), withLen(z)...), port, 1, 2, len(el), false)
+	// (the request's server name is its first name: these requests are well-formed requests for that name, and
+	// a refused host means no connection to it "or to any other address")
+	add("alternate-allowed-after-unlisted", append(append([]byte{}, el...), withLen(z)...), port, 1, 1, len(el), true)
+	add("second-resource-allowed-after-unlisted", append(append([]byte{}, el...), withLen(z)...), port, 2, 0, len(el), true)
+	add("two-alternates-allowed-after-unlisted", append(append(append([]byte{}, el...), withLen(z)...), withLen(z)...), port, 1, 2, len(el), true)
+	// ... and the other way round: the first name is the listed one, an unlisted one follows
+	add("alternate-unlisted-after-allowed", append(append([]byte{}, z...), withLen(el)...), port, 1, 1, len(z), true)
+	add("second-resource-unlisted-after-allowed", append(append([]byte{}, z...), withLen(el)...), port, 2, 0, len(z), true)
 	// a byte order mark is a character like any other (U+FEFF): a name that starts with one is another name
 	bomLE := append([]byte{0xFF, 0xFE}, z...)
 	add("byte-order-mark-le-prefix", bomLE, port, 1, 0, len(bomLE), true)
